@@ -154,6 +154,12 @@ func handle(req J) J {
 		return J{"ok": r}
 	case "quote":
 		return J{"ok": exporter.MustExport(str(req, "s"))}
+	case "unquote":
+		v, err := strconv.Unquote(str(req, "s"))
+		if err != nil {
+			return J{"err": "invalid"}
+		}
+		return J{"ok": v}
 	case "export":
 		v := valFromJSON(req["v"])
 		s, err := exporter.Export(v)
